@@ -151,6 +151,17 @@ type Machine struct {
 	resetEvery     int
 	needFP         bool
 	mapOrderNondet bool
+
+	// selftest (the repository's own tests under the interpreter)
+	entryArgs     func() []value
+	clockTicks    bool
+	testFailWhere string
+	clock         uint64
+	baseOverrides map[string]value
+	afterPath     func()
+	testFailed    bool
+	testSkipped   bool
+	testCleanups  []value
 }
 
 type G struct {
@@ -722,11 +733,16 @@ func (m *Machine) resetPath() {
 	m.sliceRaces = map[*value]*mapRaceState{}
 	m.raceSeen = map[string]bool{}
 	m.overrides = map[string]value{}
+	for k, v := range m.baseOverrides {
+		m.overrides[k] = v
+	}
 	m.racyScope = ""
 	m.randInts = nil
 	m.randDraws = 0
 	m.mapOrderNondet = false
 	m.opts = m.baseOpts
+	m.testFailed, m.testSkipped, m.testCleanups = false, false, nil
+	m.clock = 0
 }
 
 func (m *Machine) runPath(fn *ssa.Function) *abortPath {
@@ -739,11 +755,21 @@ func (m *Machine) runPath(fn *ssa.Function) *abortPath {
 	g0.started = true
 	go m.gMain(g0, func() {
 		m.initPackagesFor(fn)
-		m.callFn(nil, token.NoPos, fn, nil)
+		var args []value
+		if m.entryArgs != nil {
+			args = m.entryArgs()
+		}
+		m.callFn(nil, token.NoPos, fn, args)
+		for i := len(m.testCleanups) - 1; i >= 0; i-- {
+			m.call(nil, token.NoPos, m.testCleanups[i], nil)
+		}
 	}, true)
 	g0.resume <- true
 	out := <-m.done
 	m.finished = true
+	if m.afterPath != nil {
+		m.afterPath()
+	}
 	// kill every other goroutine still parked
 	for _, g := range m.gs {
 		if g.state != 2 && g != m.cur {
